@@ -989,7 +989,9 @@ impl Scenario for C01Cycles {
                                 got.ends_with(text.as_bytes()) && {
                                     let head = String::from_utf8_lossy(&got[..got.len() - text.len()]).to_string();
                                     let h = head.trim();
-                                    h.starts_with("/*") && h.ends_with("*/") && h.contains(b.as_str())
+                                    // every line of the banner stands in the comment (a multi-line banner may be laid out
+                                    // line by line, with or without decoration)
+                                    h.starts_with("/*") && h.ends_with("*/") && b.lines().all(|l| h.contains(l.trim()))
                                 }
                             }
                         };
